@@ -90,14 +90,15 @@ class Sink:
 
 
 class SubSession:
-    def __init__(self, async_mgr=False, reference_params=False):
+    def __init__(self, async_mgr=False, reference_params=False, transport='loopback'):
         import sdc11073.provider.subscriptionmgr_base as smb
         self.smb = smb
         self.vt = VTime()
         smb.time = self.vt
         try:
             self.pair = Pair(with_consumer=False, async_mgr=async_mgr, reference_params=reference_params,
-                             max_subscription_duration=MAXDUR)
+                             max_subscription_duration=MAXDUR, transport=transport, chunk_size=700)
+            self.real = transport == 'fullstack' and not async_mgr
         except Exception:
             smb.time = self.vt._real  # noqa: SLF001
             raise
@@ -114,10 +115,13 @@ class SubSession:
                 srv.dispatcher.register_instance('sink', sink)
                 self.sinks[(name, p)] = sink
         self.fail = {}
+        self.connect_refused = []
+        self._broke_pos = 0
         self.during = None
         self.during_res = 'none'
         self.strip_expires = False
         self.net.on_post = self._on_post
+        self.net.on_connect = self._on_connect
         self.subs = {}           # trace id -> ConsumerSubscription
         self.log_pos = len(self.net.log)
         self.tok = 0
@@ -159,6 +163,15 @@ class SubSession:
             for name, port in CLIENT_PORT.items():
                 if wire.dst.endswith(f':{port}') and name in self.fail:
                     return self._exception(self.fail[name])
+        return None
+
+    def _on_connect(self, netloc, local):
+        # a subscriber whose endpoint refuses connections: the failure shows up when the provider opens the connection
+        if local == 'provider':
+            for name, port in CLIENT_PORT.items():
+                if netloc.endswith(f':{port}') and self.fail.get(name) == 'refused':
+                    self.connect_refused.append(name)
+                    return ConnectionRefusedError('scripted refused (connect)')
         return None
 
     def _exception(self, kind):
@@ -206,6 +219,18 @@ class SubSession:
         out['sent'] = self._sent()
         out['table'] = self._table()
         out['agree'] = table_agrees(self.mgr._subscriptions)  # noqa: SLF001
+        out['real'] = bool(getattr(self, 'real', False))
+        out['refused_at_connect'] = sorted(set(self.connect_refused))
+        # endpoints for which a socket-level failure was injected while a notification was exchanged (this step)
+        broke = set()
+        for w in self.net.log[self._broke_pos:]:
+            if w.src == 'provider' and w.outcome.startswith('failed:') and w.outcome != 'failed:HTTPReturnCodeError':
+                for name, port in CLIENT_PORT.items():
+                    if w.dst.endswith(f':{port}'):
+                        broke.add(name)
+        self._broke_pos = len(self.net.log)
+        out['broke'] = sorted(broke)
+        self.connect_refused = []
         out.update(extra)
         return out
 
@@ -388,10 +413,27 @@ def check(run, replay_path=None):
                     out.append({'act': 'Housekeeping'})
         mixed.append(out)
     behs = mixed
-    variants = [dict(), dict(async_mgr=True), dict(reference_params=True), dict(async_mgr=True, reference_params=True)]
+    # 'fullstack': the provider delivers with the real SoapClient (connection pool, sticky connection errors, chunking,
+    # content coding) to the real HTTP request handler in front of the subscriber endpoints
+    variants = [dict(), dict(async_mgr=True), dict(transport='fullstack'), dict(reference_params=True),
+                dict(async_mgr=True, reference_params=True), dict(transport='fullstack', reference_params=True)]
+    jobs = [(beh, variants[i % len(variants)]) for i, beh in enumerate(behs)]
+    # test purposes (breadth-first TLC run over tiny constants): for every pair (fate of the earlier deliveries to an
+    # endpoint, outcome of this one) the shortest history - e.g. subscribe, delivery times out, housekeeping removes the
+    # subscription, the same endpoint subscribes again, report.  Each runs on the three kinds of transport / manager.
+    res = run_tlc('SubscriptionMC', 'Subscription_purpose.cfg', workers=1, timeout=1800)
+    run.add_tlc(res)
+    purpose = json_lines(res.stdout, 'BEH')
+    if len(purpose) < 20:
+        raise MachineryError(f'expected about 32 test-purpose histories from Subscription_purpose.cfg, got {len(purpose)}')
+    run.note('test_purposes_notified_after_fate', len(purpose))
+    for beh in purpose:
+        for variant in (dict(transport='fullstack'), dict(), dict(async_mgr=True)):
+            jobs.append((beh, variant))
+    behs = [b for b, _ in jobs]
     traces = []
-    for i, beh in enumerate(behs):
-        ses = SubSession(**variants[i % len(variants)])
+    for beh, variant in jobs:
+        ses = SubSession(**variant)
         try:
             traces.append(ses.run(beh))
         finally:
@@ -409,7 +451,7 @@ def check(run, replay_path=None):
     for r in sorted(rejects, key=lambda x: (x[0], x[1])):
         by_trace.setdefault(r[0], []).append(r)
     for ti, rs in by_trace.items():
-        variant = variants[ti % len(variants)]
+        variant = jobs[ti][1]
         for (_, li, clause) in rs:
             rec = traces[ti][li]
             descr = {'check': 'subscriptions', 'clause': clause, 'act': rec['act'],
